@@ -799,6 +799,17 @@ def _coll_oracle(interp, env, f, args, t, bb, path):
             if ev.kind in ("call", "inlined"):
                 break
         return TOP
+    if dk in ("core::mem::take", "core::mem::replace") and isinstance(a0, Vec) and a0.borrowed and a0.lo is None and (dk.endswith("take") or (len(args) == 2 and isinstance(load(interp, env, args[1]), Vec))):
+        # through a `&mut Vec<_>` handle: the old contents move out, the vector is left empty / with the replacement's elements
+        old_items = list(heap_get(interp, a0.vid))
+        repl = list(view_get(interp, load(interp, env, args[1]))) if dk.endswith("replace") else []
+        heap_set(interp, a0.vid, repl)
+        return new_vec(interp, old_items)
+    if dk in ("core::mem::swap",) and len(args) == 2 and all(isinstance(x, Vec) and x.borrowed and x.lo is None for x in args):
+        xa, xb = list(heap_get(interp, args[0].vid)), list(heap_get(interp, args[1].vid))
+        heap_set(interp, args[0].vid, xb)
+        heap_set(interp, args[1].vid, xa)
+        return unit
     if dk in ("core::mem::swap",) and len(args) == 2 and all(isinstance(x, (Ref, HRef)) for x in args):
         a_, b_ = load(interp, env, args[0]), load(interp, env, args[1])
         if store_ref(interp, env, args[0], b_) and store_ref(interp, env, args[1], a_):
